@@ -78,6 +78,25 @@ func evalC07(h history, rec *hx.Rec) error {
 			return fmt.Errorf("ElementsToBytes over the pool of %d elements: entry %d = %x, Bytes() = %x", n, i, all[i], enc[i])
 		}
 	}
+	// ... and over long lists (private copies of the pool elements cycled up to a block-size boundary plus one)
+	if hk := hx.Hash64(fmt.Sprint(h.Acts)); hk%8 == 0 && n > 0 {
+		L := []int{1025, 2049, 1024, 257}[hk>>3%4]
+		long := make([]*banderwagon.Element, L)
+		for i := range long {
+			c := *pool[i%n]
+			long[i] = &c
+		}
+		var lb [][32]byte
+		if perr := hx.Try(func() { lb = banderwagon.ElementsToBytes(long...) }); perr != nil {
+			return perr
+		}
+		for i := range long {
+			if len(lb) != L || lb[i] != enc[i%n] {
+				return fmt.Errorf("ElementsToBytes over %d elements: entry %d differs from Bytes() of the same element", L, i)
+			}
+		}
+		rec.Label(fmt.Sprintf("long_batch=%d", L))
+	}
 	eqDiffRep, uneq := 0, 0
 	for i := 0; i < n; i++ {
 		for j := i + 1; j < n; j++ {
@@ -120,6 +139,16 @@ func TestC07(t *testing.T) {
 	s := hx.Start(t, "C07")
 	defer s.Finish()
 	s.Guard(func() { Cfg() })
+	// forced: elements whose affine y is next to p/2 (both sign choices, with and without limb-aligned offsets), their
+	// negatives and flipped representatives; a table MSM over a caller-built basis
+	var fh history
+	for j := 0; j < 8; j++ {
+		fh.Acts = append(fh.Acts, act{Op: "y_near_half", N: 97*j + 13*hx.Shard() + 1000*hx.Seed(), Seed: uint64(j)})
+	}
+	one, two := scalarSpec{Kind: "one"}, scalarSpec{Kind: "small", N: 2}
+	fh.Acts = append(fh.Acts, act{Op: "neg", A: 2}, act{Op: "flip", A: 3}, act{Op: "rescale", A: 4, Seed: 5}, act{Op: "redecode", A: 5},
+		act{Op: "precomp_custom", N: hx.Shard() % 8, S: &one, T: &two})
+	c07Part.EvalCase(s, fh)
 	c07Part.Run(s, hx.PerShard(hx.Pick(40000, 2400000)))
 	c07Part.RunConcurrent(s, 8, hx.Pick(250, 4000))
 }
